@@ -85,6 +85,10 @@ func toErr(r any) error {
 
 type opRef struct{ task, op int }
 
+// ColdStart makes RunScenario execute the concurrent phase before any
+// reference run (set from SIM_COLD by the worker).
+var ColdStart bool
+
 // RunScenario executes sc and evaluates the oracles of sc.Property.
 func RunScenario(t *testing.T, sc *Scenario, keepLog bool) (*Report, error) {
 	w, err := buildWorld(sc)
@@ -151,8 +155,13 @@ func RunScenario(t *testing.T, sc *Scenario, keepLog bool) (*Report, error) {
 	var refA, refNoFault refTable
 	switch sc.Property {
 	case "C19":
-		if refA, err = alone(steady, false); err != nil {
-			return nil, err
+		// Cold start: the concurrent phase is the first thing this process
+		// does with the library (lazily initialised package state must meet
+		// its first use there); both reference passes follow it.
+		if !ColdStart {
+			if refA, err = alone(steady, false); err != nil {
+				return nil, err
+			}
 		}
 	case "C20":
 		var faulted []opRef
@@ -227,6 +236,11 @@ func RunScenario(t *testing.T, sc *Scenario, keepLog bool) (*Report, error) {
 
 	switch sc.Property {
 	case "C19":
+		if ColdStart {
+			if refA, err = alone(steady, false); err != nil {
+				return nil, err
+			}
+		}
 		// Second reference pass, after the concurrent phase, reverse order.
 		rev := make([]opRef, len(steady))
 		for i, r := range steady {
